@@ -8,8 +8,11 @@
    Objects are (shape, flat C-order list); a rotation is (quaternion, improper
    flag) as in Model/Quat.v.  The model is FAITHFUL to /repo as it is: both
    Orientation paths compute other x ~self and transpose the two groups of axes
-   to self.shape ++ other.shape; the lazy one keeps the proper symmetry elements
-   only and ignores the improper flags of the orientations. *)
+   to self.shape ++ other.shape; both keep, for every pair, the symmetry elements
+   that are improper exactly when the pair is (the eager one inside
+   Rotation.dot_outer, the lazy one with da.where on the xor of the flags);
+   angle_with_outer works on self.unit, which keeps the flags of self;
+   Quaternion.outer(Vector3d, lazy=True) hands self.unit to _outer_dask. *)
 From Coq Require Import ZArith List Bool.
 From Verif Require Import Scalar NdIndex QuatKernels Conversions Quat RotArr C18Dask C18Nd.
 Import ListNotations.
@@ -54,8 +57,9 @@ Definition qq_outer_lazy (k : nat) (sA sB : list nat) (A B : list quat) : list q
 (* eager: both backends rotate by the normalised quaternion (built-in: the
    reshaped __mul__ above; numpy-quaternion: rotate_vectors) *)
 Definition qv_outer_eager (A : list quat) (V : list vec3) : list vec3 := outer qv_mul_builtin A V.
+(* lazy: self.unit._outer_dask(other) -- the dask formula on the normalised quaternions *)
 Definition qv_outer_lazy (k : nat) (sA sV : list nat) (A : list quat) (V : list vec3) : list vec3 :=
-  blocked_outer (zq O) (zv O) (zv O) dq_rot k sA sV A V.
+  blocked_outer (zq O) (zv O) (zv O) dq_rot k sA sV (map qunit A) V.
 
 (* ---- Rotation.outer: same post-processing of the flags in both modes ------ *)
 Definition rot_outer_eager (A B : list rot) : list rot := router O A B.
@@ -81,13 +85,16 @@ Definition lmax0 (l : list T) : T := fold_right (fun x m => o_max O x m) (o_ofZ 
 Definition sym_term_eager (m s : rot) : T :=
   if xorb (snd m) (snd s) then o_ofZ O 0 else o_min O (o_ofZ O 1) (o_abs O (qdot O (fst m) (fst s))).
 Definition sym_dot_eager (S : list rot) (m : rot) : T := lmax0 (map (sym_term_eager m) S).
-(* da.einsum(M, symmetry.data) then da.max(abs(.)) *)
+(* da.einsum(M, symmetry.data) then da.max(abs(.)) (Misorientation.get_distance_matrix) *)
 Definition sym_dot_all (S : list rot) (m : quat) : T :=
   lmax0 (map (fun s => o_abs O (qdot O m (fst s))) S).
-(* Orientation._dot_outer_dask: symmetry = symmetry[~symmetry.improper] first;
-   the flags of the two orientations are never looked at *)
-Definition sym_dot_lazy (S : list rot) (m : quat) : T :=
-  sym_dot_all (filter (fun s => negb (snd s)) S) m.
+(* Orientation._dot_outer_dask: abs(da.einsum(M, symmetry.data)), then
+   da.where(improper[..., newaxis] == symmetry.improper, ., 0), then da.max;
+   improper = logical_xor.outer(other.improper, self.improper) is the flag of m *)
+Definition sym_term_lazy (m s : rot) : T :=
+  if Bool.eqb (snd m) (snd s) then o_abs O (qdot O (fst m) (fst s)) else o_ofZ O 0.
+Definition sym_dot_lazy (S : list rot) (m : rot) : T := lmax0 (map (sym_term_lazy m) S).
+Definition zr : rot := (zq O, false).
 
 (* order = range(other.ndim, other.ndim + self.ndim) + range(other.ndim), in both modes *)
 Definition eager_order (ns no : nat) : list nat := seq no ns ++ seq 0 no.
@@ -100,8 +107,9 @@ Definition ori_dot_outer_eager (ss so : list nat) (X Y S : list rot) : list nat 
   (tr_shape (so ++ ss) order, transpose_nd (o_ofZ O 0) (so ++ ss) hd order).
 
 Definition ori_dot_outer_lazy (k : nat) (ss so : list nat) (X Y S : list rot) : list nat * list T :=
-  let hd := blocked_outer (zq O) (zq O) (o_ofZ O 0) (fun y x => sym_dot_lazy S (dq_mul y x)) k so ss
-                          (map fst Y) (map (fun x => qconj O (fst x)) X) in
+  let hd := blocked_outer zr zr (o_ofZ O 0)
+                          (fun y x => sym_dot_lazy S (dq_mul (fst y) (qconj O (fst x)), xorb (snd y) (snd x)))
+                          k so ss Y X in
   let order := eager_order (length ss) (length so) in
   (tr_shape (so ++ ss) order, transpose_nd (o_ofZ O 0) (so ++ ss) hd order).
 
@@ -114,20 +122,14 @@ Definition cang (d : T) : T :=
   let c := o_sub O (o_mul O (o_ofZ O 2) (o_mul O d d)) (o_ofZ O 1) in
   if o_ltb O (o_ofZ O 1) c then o_ofZ O 1 else c.
 
-(* O = self.unit drops the improper flags of self (Object3d.unit, see C16) *)
-Definition drop_flags (X : list rot) : list rot := map (fun x => (fst x, false)) X.
-
+(* O = self.unit keeps the improper flags (and the symmetry) of self; the
+   quaternions of an orientation are unit already *)
 Definition awo_eager_with (h : T -> T) (ss so : list nat) (X Y S : list rot) : list nat * list T :=
-  let r := ori_dot_outer_eager ss so (drop_flags X) Y S in (fst r, map h (snd r)).
+  let r := ori_dot_outer_eager ss so X Y S in (fst r, map h (snd r)).
 Definition awo_lazy_with (h : T -> T) (k : nat) (ss so : list nat) (X Y S : list rot) : list nat * list T :=
-  let r := ori_dot_outer_lazy k ss so (drop_flags X) Y S in (fst r, map h (snd r)).
+  let r := ori_dot_outer_lazy k ss so X Y S in (fst r, map h (snd r)).
 Definition awo_eager := awo_eager_with ang.
 Definition awo_lazy := awo_lazy_with ang.
-
-(* what both modes are meant to return: indexed self.shape ++ other.shape *)
-Definition ori_dot_outer_spec (sym : list rot -> rot -> T) (ss so : list nat) (X Y S : list rot)
-  : list nat * list T :=
-  (ss ++ so, outer (fun x y => sym S (rmul O y (rinv O x))) X Y).
 
 (* ---- Misorientation.get_distance_matrix (always lazy) -------------------- *)
 Definition chunked_lmax (k : nat) (l : list T) : T := lmax0 (map lmax0 (chunks k l)).
